@@ -499,6 +499,30 @@ theorem resolve_with_year (thr : Time) (y m d tod : Nat) :
     resolve true thr ⟨some y, m, d, tod⟩ = mkTime y m d tod := by
   cases h : mkTime y m d tod <;> simp [resolve, h]
 
+/-- two-digit years (`%y`): the conversion is the POSIX pivot.  The result always lies in 1969–2068 and keeps the
+two digits; every year of 1969–2068 round-trips through its last two digits, and NO other year does (a year
+outside that window cannot be written with `%y`: 2069 written as "69" denotes 1969) -/
+theorem pivot_year_spec (yy : Nat) (h : yy < 100) :
+    1969 ≤ pivotYear yy ∧ pivotYear yy ≤ 2068 ∧ pivotYear yy % 100 = yy ∧
+    (∀ y, pivotYear (y % 100) = y ↔ (1969 ≤ y ∧ y ≤ 2068)) := by
+  refine ⟨?_, ?_, ?_, ?_⟩
+  · unfold pivotYear; split <;> omega
+  · unfold pivotYear; split <;> omega
+  · unfold pivotYear; split <;> omega
+  · intro y; unfold pivotYear; split <;> omega
+
+example : pivotYear 68 = 2068 ∧ pivotYear 69 = 1969 ∧ pivotYear 0 = 2000 ∧ pivotYear 99 = 1999 := by decide
+-- a line written "690113 04:42:44" (%y%m%d) is a line of 1969: not after a threshold in 2067
+example : getAfter (fun _ => some (RawStamp.ofTwoDigitYear 69 1 13 16964000000)) true ⟨2067, 12, 5, 3540000001⟩ none
+    ["690113 04:42:44 x".toList] = .ok [] := by decide
+example : getAfter (fun _ => some (RawStamp.ofTwoDigitYear 68 1 13 16964000000)) true ⟨2067, 12, 5, 3540000001⟩ none
+    ["680113 04:42:44 x".toList] = .ok ["680113 04:42:44 x".toList] := by decide
+
+/-- a stamp with a two-digit year is taken in the pivoted year -/
+theorem resolve_two_digit_year (thr : Time) (yy m d tod : Nat) :
+    resolve true thr (RawStamp.ofTwoDigitYear yy m d tod) = mkTime (pivotYear yy) m d tod :=
+  resolve_with_year thr (pivotYear yy) m d tod
+
 def d34 : Nat := 34 * usPerDay
 
 /-- the inference recovers the true date of a yearless stamp whenever the log line is less than 35 days
